@@ -44,13 +44,13 @@ var pathTokens = []string{"/", " ", "\t", "\u00a0", "\u2003", ".", "%2F", "%20",
 // enumeration: every token string of length 0..full gets the full block set, every token string of length
 // full+1..lite the reduced one.
 //
-//	quick:    full = 2 (157 strings), lite = 3 (+1 728)
+//	quick:    full = 3 (1 885 strings), lite = 4 (+20 736)
 //	thorough: full = 4 (22 621 strings), lite = 5 (+248 832)
 func pathEnumMax(tier string) (full, lite int) {
 	if tier == "thorough" {
 		return 4, 5
 	}
-	return 2, 3
+	return 3, 4
 }
 
 func pow(b, n int) int {
